@@ -571,6 +571,33 @@ def lifecycle():
     actf = strip_comments(src("core/src/sessionx/actor.rs"))
     mfin = re.search(r"async fn finalize\(mut self.*?\n  \}", actf, re.S)
     emit_nat("sessionDrainsMailboxAtExit", 1 if mfin and re.search(r"while self\.command_mailbox_receiver\.try_recv\(\)\.is_ok\(\) \{\}", mfin.group(0)) else 0)
+    # io_uring worker: what happens to the table of in-kernel operations at a CloseFd completion, and how a completion finds its entry
+    trk = strip_comments(src("core/src/io_uring_backend/worker/internal_op_tracker.rs"))
+    cqp = strip_comments(src("core/src/io_uring_backend/worker/cqe_processor.rs"))
+    morph = re.search(r"pub fn orphan_ops_for_fd\(&mut self, fd_closed: RawFd\) \{(.*?)\n  \}", trk, re.S)
+    orph = morph.group(1) if morph else ""
+    keeps_all = (re.search(r"for \(_, v\) in self\.op_to_details\.iter_mut\(\) \{\s*if v\.fd == fd_closed \{\s*v\.fd = ORPHANED_OP_FD;", orph)
+                 and re.search(r"for d in self\.pending_notifications\.values_mut\(\) \{\s*if d\.fd == fd_closed \{\s*d\.fd = ORPHANED_OP_FD;", orph)
+                 and "remove" not in orph
+                 and "worker.internal_op_tracker.orphan_ops_for_fd(handler_fd);" in cqp
+                 and "remove_ops_for_fd" not in cqp and "remove_ops_for_fd" not in trk)
+    emit_nat("uringCloseKeepsAllInflightOps", 1 if keeps_all else 0)
+    mtake = re.search(r"pub fn take_for_completion\(&mut self, user_data: UserData, is_notification: bool\).*?\n  \}", trk, re.S)
+    take = mtake.group(0) if mtake else ""
+    by_kind = (re.search(r"if is_notification \{\s*if let Some\(d\) = self\.pending_notifications\.remove\(&user_data\) \{\s*return Some\(d\);\s*\}\s*\}", take)
+               and take.count("pending_notifications") == 1
+               and re.search(r"\.get_for_completion\(cqe_user_data, is_notification_cqe\)", cqp)
+               and re.search(r"\.take_for_completion\(cqe_user_data, is_notification_cqe\)", cqp)
+               and "let is_notification_cqe = (cqe_flags & CQE_F_NOTIFY_FLAG) != 0;" in cqp
+               and "take_op_details(cqe_user_data);\n    }\n\n    if let Some(op_details) = op_details_taken_for_final_processing" not in cqp)
+    emit_nat("uringCompletionLookupByKind", 1 if by_kind else 0)
+    mrein = re.search(r"pub fn reinsert_for_notification\(&mut self, user_data: UserData, details: InternalOpDetails\) \{(.*?)\n  \}", trk, re.S)
+    rein = mrein.group(1) if mrein else ""
+    emit_nat("uringNotificationKeepsSlot", 1 if re.search(r"if self\.op_to_details\.vacant_key\(\) == key \{\s*self\.op_to_details\.insert\(details\);\s*return;", rein) else 0)
+    mreap = re.search(r"fn reap_orphaned_completion\(.*?\n\}", cqp, re.S)
+    reap = mreap.group(0) if mreap else ""
+    emit_nat("uringOrphanCompletionGivesBufferBack", 1 if "bm.reprovide_buffer(bid)" in reap and "pool.release_buffer(send_buf_id)" in reap
+             and re.search(r"if handler_fd_peeked == ORPHANED_OP_FD \{\s*reap_orphaned_completion\(", cqp) else 0)
     tc = strip_comments(src("core/src/transport/tcp.rs"))
     emit_nat("connecterAbortIsFinal", 1 if re.search(r"Connect aborted: shutdown by system event", src("core/src/transport/tcp.rs")) and 's.contains("shutdown by")' in tc else 0)
     emit_nat("connecterChecksParentRunning", 1 if re.search(r"if !self\.socket_logic\.core\(\)\.is_running\(\) \{\s*last_connect_attempt_error", tc) else 0)
